@@ -80,6 +80,8 @@ pub struct EvMeta {
     pub ctx_failed: usize,
     pub ctx_passed: usize,
     pub outcome: String,
+    /// active rule set after the action (differs from `set` when the action switched)
+    pub set_after: usize,
 }
 
 #[derive(Clone, Debug, Default)]
@@ -112,6 +114,13 @@ pub struct History {
     pub item_ev_end: Vec<usize>,
     pub stats: RefStats,
     pub final_done: bool,
+    /// for each item: char position at which the scan that produced it started, and the rule set
+    /// that was active during that scan
+    pub item_scan_pos: Vec<usize>,
+    pub item_set: Vec<usize>,
+    /// position and rule set when the stream ended
+    pub end_pos: usize,
+    pub end_set: usize,
     /// why the stream ended: 1 = Init reached end of input at a lexeme boundary, 2 = end of input
     /// had already been acted upon by an earlier match or error (done flag)
     pub end_kind: u8,
@@ -501,6 +510,9 @@ pub struct RefRun<'a> {
     pub n_ambiguous: usize,
     pub cross_check: bool,
     pub cross_check_failures: Vec<String>,
+    /// scan start position / active set of the scan that produced the last returned item
+    pub last_scan_pos: usize,
+    pub last_scan_set: usize,
 }
 
 impl<'a> RefRun<'a> {
@@ -515,6 +527,8 @@ impl<'a> RefRun<'a> {
             n_ambiguous: 0,
             cross_check,
             cross_check_failures: vec![],
+            last_scan_pos: 0,
+            last_scan_set: 0,
         }
     }
 
@@ -535,6 +549,8 @@ impl<'a> RefRun<'a> {
             } else {
                 false
             };
+            self.last_scan_pos = cfg.pos;
+            self.last_scan_set = cfg.set;
             let sc = self.c.scan(cfg.set, self.input, cfg.pos, read_one);
             h.stats.chars_examined += (sc.furthest - cfg.pos) as u64;
             h.stats.ctx_evals_failed += sc.ctx_failed;
@@ -677,6 +693,7 @@ impl<'a> RefRun<'a> {
                         ctx_failed: sc.ctx_failed,
                         ctx_passed: sc.ctx_passed,
                         outcome: out.kind(),
+                        set_after: cfg.set,
                     });
                     match out.fin {
                         Fin::Continue => continue,
@@ -712,10 +729,14 @@ impl<'a> RefRun<'a> {
             match self.next(&mut cfg, &mut h) {
                 None => {
                     h.final_done = true;
+                    h.end_pos = cfg.pos;
+                    h.end_set = cfg.set;
                     break;
                 }
                 Some(it) => {
                     h.items.push(it);
+                    h.item_scan_pos.push(self.last_scan_pos);
+                    h.item_set.push(self.last_scan_set);
                     h.item_ev_end.push(h.evs.len());
                     if h.items.len() > max_items {
                         break;
